@@ -5,6 +5,23 @@ import json, os, re
 ROOT = '/verif'
 m = json.load(open(f'{ROOT}/mutants/matrix.json'))
 NOTES = {
+ 'C01f': 'first missed: all observations of a stream had the same keys in the same order. Per-observation shapes were added to the shared stream driver (reversed key order with a model that reads by position; an optional context key the model reads with a default) and a model-input-shape oracle to C02/C03',
+ 'C02f': 'NOT caught, by design: judged not to violate the properties as stated (algebraically identical update; within the forward-error bound of a standard evaluation of the recurrence; refactoring R10 uses the same form for alpha < 1/2) - see seeded/C02f/meta.json',
+ 'C03f': 'first missed: model outputs were of order one; multi-label outputs scaled by 1e-10 added to C03, all values scaled by 1e-10 to C12',
+ 'C04f': 'first missed: background values were pairwise different under ==; rows holding True / 1 / Fraction(1) and a model that tells them apart were added',
+ 'C05f': 'decided by C14 (the change is in the wrapper layer): batches without feature names whose rows have different key orders were added there; C05 drives models that take dicts directly',
+ 'C06f': 'first missed: subsets were list / tuple / set / frozenset / dict keys; NumPy arrays added (the property says any iterable)',
+ 'C08f': 'first missed: sizes were Python ints; long paths with np.int8 / np.uint8 / np.int16 sizes beyond the range of the type added',
+ 'C10f': 'first missed: alphas were 0, 1/4, 1/3, 1/2, 1; non-zero alphas below eps, alpha just below 1 and np.float32 alphas added, with a forward-error bound of the recurrence instead of eps*max|v| (vacuous for tiny alpha)',
+ 'C11f': 'first missed: values were Python numbers; windows of np.float16 / np.float32 values added (accuracy demanded relative to the narrowest type, finiteness always)',
+ 'C13f': 'first missed: BFS depth 4 sees at most 4 distinct labels; one long history per metric (400 calls, new labels every call, re-validation every 64) added as a necessary-condition probe',
+ 'C14f': 'first missed: every wrapper instance was called once; call histories on ONE instance with changing value types added (result must equal a fresh wrapper)',
+ 'C15f': 'first missed: counts were Python ints; a scenario with np.int64 constructor value and np.uint8 / np.int64 per-call overrides added',
+ 'C16f': 'first missed: deltas were 1/100, 1/2, 1; the smallest floats (5e-324, 1e-310, 2.3e-308) added, reference via exact rational arithmetic and integer square root (judged only where the literal formula itself stays in range)',
+ 'C17f': 'first missed: the imputer always shared the explainer storage (and the imputer spy hid its attributes); an imputer on a fault-injecting storage of its own added, the spy is now transparent',
+ 'C18f': 'first missed: no cell overrode n_inner_samples per call; cells with override below / above the constructor value added (scratch memory sized for the constructor value must not leak: the four runs of a cell have different allocation histories)',
+ 'C19f': 'first missed: numerical features were floats in [0,1]; a numerical feature holding integers beyond 2**53 added',
+ 'C20f': 'first missed: multi-key trackers were not part of the long streams; eras of magnitude 1e8 / 1e-8 through MultiValueTracker added (normalised view judged against the tracker own values)',
  'C01e': 'first missed: explainers were never copied; every exact stream now takes a deepcopy checkpoint before the last observation, lets the original move on and then continues on the copy (the copy must be independent)',
  'C02e': 'first missed: (a) no stream went past the capacity of a bounded storage with in-place replacement, (b) the closed form was computed from the rows the imputer USED; long streams on Interval/Sequence/Geometric storages and a provenance oracle (every imputed value comes from a row that is in the storage at call start) were added',
  'C03e': 'first missed: observations never carried keys outside feature_names; an extra-key option was added to the shared stream driver (the model reads the extra key, it must never be imputed)',
@@ -81,11 +98,11 @@ for n in sorted(idx):
         continue
     r = m[n]
     lines.append(f"| mutants/{n} | {', '.join(idx[n])} | (hand-written, one edit) | {r.get('tests', '')[:9]} | {catches(r)} | {NOTES.get(n, '')} |")
-missed = [n for n, r in m.items() if any(isinstance(v, dict) and v.get('exit') != 1 for k, v in r.items() if k.startswith('C'))]
+missed = [n for n, r in m.items() if not any(isinstance(v, dict) and v.get('exit') == 1 for k, v in r.items() if k.startswith('C'))]
 txt = open(f'{ROOT}/DESIGN.md').read()
 block = ("<!-- MATRIX-BEGIN -->\n" + '\n'.join(lines) + f"\n\nTotals: {len(seeded)} seeded changes ({len([n for n in seeded if not n.startswith('fix')])} from independent "
          f"sub-agents, {len([n for n in seeded if n.startswith('fix')])} fix reverts), {len([n for n in idx if n in m])} hand-written; "
-         f"not caught by an expected check: {missed if missed else 'none'}.\n<!-- MATRIX-END -->")
+         f"caught by none of the expected checks: {missed if missed else 'none'}.\n<!-- MATRIX-END -->")
 if '<!-- MATRIX-BEGIN -->' in txt:
     txt = re.sub(r'<!-- MATRIX-BEGIN -->.*<!-- MATRIX-END -->', lambda _: block, txt, flags=re.S)
 else:
